@@ -523,4 +523,74 @@ example : ∀ D : Decoder, envoyBody Impl.original D (toCheck false witnessReq) 
   intro D
   constructor <;> rfl
 
+/-! ## A trusted gateway delegating the decision (`serve.decision.trusted_proxies`, `X-Forwarded-*`)
+
+The HTTP decision service learns the logical request from a gateway (Traefik `forwardAuth`, NGINX `auth_request`, …)
+that sends a request of its own — any method, any request target, over any transport — and describes the request of
+the client in `X-Forwarded-Method`, `-Proto`, `-Host`, `-Uri` (`forwardAuth`). The peer is a trusted proxy, so the
+`trustedproxy` middleware keeps the headers and `extractMethod` / `extractURL` read the view from them
+(`httpObjFwd`, `mkCtxFwd`, `serveFwd`). -/
+
+/-- **A delegated request is shown as the logical request.** For every gateway (method, transport and target of its
+own request), every log level and every logical request with a path `net/http` accepts that can be described in the
+forwarded headers (`Spec.forwardable`: method and host not empty, path in origin form, no `#`), the request context of
+the decision service holds *the* view of the logical request — method, scheme, host as written, the path **as written
+from its first to its last octet** (in the received spelling) and its decoding, the query as written, whatever octets
+path and query consist of: a comma, a semicolon, `=`, `&`, `%2F` … are octets like any other and nothing of the
+`X-Forwarded-Uri` value is cut off or treated as a list —, the view functions answer every header other than the hop
+headers (in every spelling), `Host`, every cookie and the decoded body as the reference semantics says, and the payload
+is the body. These are exactly the view and the functions `c13_same_view` establishes for the proxy service and the
+Envoy gRPC service receiving the request itself. -/
+theorem c13_delegated_request_is_the_logical_request (D : Decoder) (level : LogLevel) (g : Gateway) (lr : LReq)
+    (hp : Spec.validPath lr.rawPath = true) (hf : Spec.forwardable lr = true) (hg : Spec.validPath g.path = true) :
+    ∃ e, mkCtxFwd D level g lr = some e ∧ e.ctx.caches = true ∧ e.ctx.cell = none ∧ e.ctx.fresh = Spec.obj lr ∧
+      (∀ name, untrustedHeaders.contains (canonKey name) = false → e.funcs.header name = Spec.header lr name) ∧
+      e.funcs.cookie = Spec.cookie lr ∧ e.funcs.body = Spec.body D lr ∧ e.payload = Spec.payload lr := by
+  obtain ⟨r, hr, hh, hhd, hb, ho⟩ := httpObjFwd_forwardAuth g lr hp hf hg
+  obtain ⟨f1, f2, f3⟩ := httpFuncsOn_forwardAuth D g lr r hh hhd hb
+  refine ⟨_, by simp only [mkCtxFwd, hr, Option.map_some, dumpMiddleware_id, trustedProxyMiddleware, if_true]; rfl,
+    rfl, rfl, ho, f1, f2, f3, ?_⟩
+  simp only [hb, Spec.payload]
+  cases lr.body with
+  | none => rfl
+  | some b => by_cases hbe : b.isEmpty = true <;> simp_all
+
+/-- **Delegated or received directly: the same view.** The object `Request()` hands to the rule lookup, to the rule
+execution and to every mechanism at the decision service behind a trusted gateway is the object of every entry point
+that receives the logical request itself (decision, proxy, Envoy gRPC), for every covered request that can be described
+in forwarded headers. -/
+theorem c13_delegated_view_eq_direct_view (D : Decoder) (level : LogLevel) (pack : Bool) {I : Impl} (g : Gateway)
+    (lr : LReq) (hc : Spec.covered I lr = true) (hf : Spec.forwardable lr = true)
+    (hg : Spec.validPath g.path = true) (ep : EP) :
+    (mkCtxFwd D level g lr).map (·.ctx.fresh) = (mkCtx I D level pack ep lr).map (·.ctx.fresh) ∧
+    (mkCtxFwd D level g lr).map (·.funcs.cookie) = (mkCtx I D level pack ep lr).map (·.funcs.cookie) ∧
+    (mkCtxFwd D level g lr).map (·.funcs.body) = (mkCtx I D level pack ep lr).map (·.funcs.body) ∧
+    (mkCtxFwd D level g lr).map (·.payload) = (mkCtx I D level pack ep lr).map (·.payload) := by
+  have hp : Spec.validPath lr.rawPath = true := by
+    simp only [Spec.covered, Spec.wellFormed, Bool.and_eq_true] at hc
+    exact hc.1.2.1.1
+  obtain ⟨e, he, -, -, ho, -, hck, hbd, hpl⟩ := c13_delegated_request_is_the_logical_request D level g lr hp hf hg
+  rw [he, c13_same_view D level pack lr hc ep]
+  refine ⟨?_, ?_, ?_, ?_⟩ <;> simp [ho, hck, hbd, hpl, Spec.funcs]
+
+/-- a path and a query with commas (legal sub-delimiters, not list separators), delegated by a gateway that asks with
+    `GET /decide` over a plain connection while the client used `POST` over TLS -/
+def witnessComma : LReq :=
+  { method := b!"POST", tls := true, host := b!"api.example.com", rawPath := b!"/items/1,2,3",
+    query := b!"fields=name,price", headers := [(b!"X-Tag", b!"a")], body := none }
+
+def witnessGateway : Gateway := { method := some b!"GET", tls := false, path := b!"/decide" }
+
+example : Spec.covered Impl.fixed witnessComma = true ∧ Spec.forwardable witnessComma = true ∧
+    Spec.validPath witnessGateway.path = true := by decide
+
+example : (toHTTP (forwardAuth witnessGateway witnessComma)).map httpObjFwd =
+    some { method := b!"POST",
+           url := { scheme := b!"https", host := b!"api.example.com", path := b!"/items/1,2,3",
+                    rawPath := b!"/items/1,2,3", rawQuery := b!"fields=name,price" },
+           captures := none } := by decide
+
+/-- outside `Spec.forwardable`: a `#` in the request target would be read as the start of a fragment -/
+example : Spec.forwardable { witnessComma with rawPath := b!"/a#b" } = false := by decide
+
 end Heimdall.Props.C13
